@@ -25,9 +25,9 @@ print(f"""You are helping to evaluate a static verification tool for the Python 
 
 YOUR AREA: {area} - {files}
 
-YOUR TASK: write EIGHT different refactorings of central, non-trivial functions in that area (different functions; spread them over the files). Each one must leave the observable behaviour of the library EXACTLY unchanged for every input (same results, same errors and messages, same order of side effects, same laziness, same exceptions), while changing the *shape* of the code the way a maintainer would in a clean-up commit. Use a variety of these: extracting a helper function or method / inlining one; turning an if/elif chain into match/case or into guard clauses with early returns (or back); a loop into a comprehension or a comprehension into a loop; naming a sub-condition in a boolean local; hoisting a repeated attribute read into a local; inverting a condition and swapping branches; replacing try/except KeyError by .get() + None test where equivalent (or back); splitting or merging adjacent conditions; replacing a lambda by a local def; moving a constant tuple/set into a module-level constant; reordering independent statements; renaming locals; changing `x = f() or x` into an if statement. Each refactoring should touch 5-40 lines. Be careful that it really is behaviour-preserving (think about None vs falsy, evaluation order, exceptions, generators/laziness, identity vs equality) - an accidental behaviour change would invalidate the probe.
+YOUR TASK: write SIX different refactorings of central, non-trivial functions in that area (different functions; spread them over the files). Each one must leave the observable behaviour of the library EXACTLY unchanged for every input (same results, same errors and messages, same order of side effects, same laziness, same exceptions), while changing the *shape* of the code the way a maintainer would in a clean-up commit. Use a variety of these: extracting a helper function or method / inlining one; turning an if/elif chain into match/case or into guard clauses with early returns (or back); a loop into a comprehension or a comprehension into a loop; naming a sub-condition in a boolean local; hoisting a repeated attribute read into a local; inverting a condition and swapping branches; replacing try/except KeyError by .get() + None test where equivalent (or back); splitting or merging adjacent conditions; replacing a lambda by a local def; moving a constant tuple/set into a module-level constant; reordering independent statements; renaming locals; changing `x = f() or x` into an if statement. Each refactoring should touch 5-40 lines. Be careful that it really is behaviour-preserving (think about None vs falsy, evaluation order, exceptions, generators/laziness, identity vs equality) - an accidental behaviour change would invalidate the probe.
 
-For each refactoring k = 1..8 write into {wt}/refactors/r<k>/ :
+For each refactoring k = 1..6 write into {wt}/refactors/r<k>/ :
   - patch.diff : output of `git -C {wt} diff` with ONLY that refactoring applied (applies cleanly with `git apply` to a pristine checkout),
   - notes.md   : 2-5 lines: function(s) touched, what was restructured, why it is behaviour-preserving.
 
@@ -36,4 +36,4 @@ HOW TO RUN THINGS (use exactly this interpreter; PYTHONPATH makes your worktree'
   baseline on the pristine tree is 3340 passed. A refactoring is only acceptable if the same number of tests pass with it.
 WORKFLOW per refactoring: edit -> run the full suite (must stay green; to save time you may run the suite once for two refactorings applied together and only bisect if it fails) -> save patch.diff (only that refactoring) -> `git -C {wt} checkout -- src` -> next. Leave the worktree pristine (apart from refactors/) when you finish.
 
-Finish with a short report listing the eight functions and what you did to each.""")
+Finish with a short report listing the six functions and what you did to each.""")
